@@ -72,6 +72,14 @@ Theorem C04_clears_closed_form : forall n t, seal t + n < M32 -> 0 < seal t -> 0
 Proof. exact clears_closed. Qed.
 Print Assumptions C04_clears_closed_form.
 
+(* n real clear() calls, any n, evaluated through the closed form with one
+   real [clear] at each wrap (what the model driver does for the 2^32-clear
+   script of the thorough tier) *)
+Theorem C04_clears_fast_is_iterated_clear : forall fuel n t, Inv t ->
+  (seal t - 1) + n < N.of_nat fuel * (M32 - 1) -> clears_fast fuel n t = clears n t.
+Proof. exact clears_fast_ok. Qed.
+Print Assumptions C04_clears_fast_is_iterated_clear.
+
 (* proxy level: for every history of evaluations, clears and data changes in
    which a data change is followed by a clear before the next evaluation, the
    proxy returns at every step what the wrapped evaluator returns when called
